@@ -36,6 +36,7 @@ struct MacroArg {
   char *name;
   bool is_va_args;
   Token *tok;
+  Token *expanded; // `tok` completely macro-expanded, made on first use
 };
 
 typedef Token *macro_handler_fn(Token *);
@@ -666,12 +667,18 @@ static Token *subst(Token *tok, MacroArg *args) {
     // before they are substituted into a macro body.
     if (arg) {
       // preprocess2 relinks and modifies the tokens it is given, and
-      // arg->tok is shared by all occurrences of the parameter.
-      Token *t = preprocess2(copy_token_list(arg->tok));
-      t->at_bol = tok->at_bol;
-      t->has_space = tok->has_space;
-      for (; t->kind != TK_EOF; t = t->next)
+      // arg->tok is shared by all occurrences of the parameter. The
+      // argument is expanded once, however often the parameter occurs
+      // (__COUNTER__ in it counts once).
+      if (!arg->expanded)
+        arg->expanded = preprocess2(copy_token_list(arg->tok));
+      Token *first = cur;
+      for (Token *t = arg->expanded; t->kind != TK_EOF; t = t->next)
         cur = cur->next = copy_token(t);
+      if (cur != first) {
+        first->next->at_bol = tok->at_bol;
+        first->next->has_space = tok->has_space;
+      }
       tok = tok->next;
       continue;
     }
